@@ -117,6 +117,81 @@ def _a_repr_sites(run, model, rule, fi, apname, name_params):
     return box[0]
 
 
+def eager_render(run, model, rule="C06.rendered-at-violation"):
+    """The values are turned into text while the violation is being reported, not when somebody reads the message:
+    no lambda / nested function of the message machinery calls ``<a_repr>.repr`` (or a helper that does) -- a deferred
+    rendering shows the objects as they are *later* (after a rollback, a clean-up, further mutation), not what the
+    condition saw."""
+    mod = model.modules["_represent"]
+    tops = [fi for fi in mod.funcs if fi.parent is None and fi.cls is None and fi.live]
+    by_name = dict((fi.name, fi) for fi in tops)
+
+    def direct(node):
+        return any(isinstance(c, ast.Call) and isinstance(c.func, ast.Attribute) and c.func.attr in ("repr", "repr1") and not (isinstance(c.func.value, ast.Name) and c.func.value.id in ("reprlib",)) for c in ast.walk(node))
+
+    renders = set(fi.name for fi in tops if direct(fi.node))
+    changed = True
+    while changed:
+        changed = False
+        for fi in tops:
+            if fi.name in renders:
+                continue
+            if any(isinstance(c, ast.Call) and isinstance(c.func, ast.Name) and c.func.id in renders for c in ast.walk(fi.node)):
+                renders.add(fi.name)
+                changed = True
+    if not renders:
+        raise AnalysisError("_represent: no function renders values through <a_repr>.repr")
+    bad = None
+    n = 0
+    for m in (mod, model.modules["_checkers"]):
+        for fi in m.funcs:
+            if not fi.live:
+                continue
+            for sub in ast.walk(fi.node):
+                if sub is fi.node or not isinstance(sub, (ast.Lambda, ast.FunctionDef, ast.AsyncFunctionDef)):
+                    continue
+                if any(ch.node is sub for ch in fi.children) and m is not mod:
+                    continue  # the wrapper closures of the checkers are analysed as functions of their own
+                n += 1
+                calls_render = direct(sub) or any(isinstance(c, ast.Call) and ((isinstance(c.func, ast.Name) and c.func.id in renders) or (isinstance(c.func, ast.Attribute) and c.func.attr in renders and m is not mod)) for c in ast.walk(sub))
+                if calls_render and bad is None:
+                    bad = (fi, sub)
+    run.check(bad is None, rule, "_represent", "%d rendering function(s) (%s); none of the %d lambdas / nested functions renders values" % (len(renders), ", ".join(sorted(renders)), n), ("a %s inside %s renders values when it is called, i.e. after the violation has been reported: the text shows the state of the objects at that later time" % ("lambda" if isinstance(bad[1], ast.Lambda) else "nested function `%s`" % bad[1].name, bad[0].qual)) if bad else "", bad[0].loc(bad[1]) if bad else "icontract/_represent.py:1", None, first_line(bad[1]) if bad else None)
+
+
+def default_repr(run, model, rule="C20.default-repr"):
+    """The default representation object is an instance of the standard library's ``reprlib.Repr`` itself -- the
+    trusted base whose rendering of sets and dictionaries is sorted --, and no class of the package re-defines how
+    containers are rendered (a ``repr_dict`` that follows the insertion order makes the message depend on the order
+    in which the caller wrote the keyword arguments)."""
+    mod = model.modules["_globals"]
+    vals = mod.assigns.get("aRepr", [])
+    calls = [v for v in vals if isinstance(v, ast.Call)]
+    bad = None
+    if len(vals) != 1 or len(calls) != 1:
+        bad = "`aRepr` is not bound once to a constructor call at module level"
+    elif src_of(calls[0].func) not in ("reprlib.Repr", "Repr") or calls[0].args:
+        bad = "the default representation object is `%s`, not an instance of reprlib.Repr itself" % src_of(calls[0], 60)
+    over = []
+    for m in model.modules.values():
+        for node in ast.walk(m.tree):
+            if isinstance(node, ast.ClassDef) and any(src_of(b) in ("reprlib.Repr", "Repr") for b in node.bases):
+                for sub in node.body:
+                    if isinstance(sub, (ast.FunctionDef, ast.AsyncFunctionDef)) and (sub.name.startswith("repr") or sub.name == "_repr_iterable"):
+                        over.append((m.name, node.name, sub))
+            if isinstance(node, ast.Assign):
+                for tg in node.targets:
+                    if isinstance(tg, ast.Attribute) and tg.attr.startswith("repr") and (tg.attr[4:5] in ("_", "1") or tg.attr == "repr") and src_of(tg.value) in ("aRepr", "reprlib.Repr", "Repr", "reprlib.aRepr"):
+                        over.append((m.name, src_of(tg.value), node))
+    if over and bad is None:
+        mname, cname, sub = over[0]
+        bad = "`%s.%s` re-defines `%s` of reprlib.Repr: how containers are ordered and cut in the message is no longer the standard library's (sorted) rendering" % (mname, cname, getattr(sub, "name", first_line(sub)))
+    loc = "icontract/_globals.py:%d" % (calls[0].lineno if calls else 1)
+    if over and over[0][2] is not None:
+        loc = "icontract/%s.py:%d" % (over[0][0], over[0][2].lineno)
+    run.check(bad is None, rule, "_globals.aRepr", "aRepr = reprlib.Repr(); no rendering method of reprlib.Repr is re-defined in the package", bad or "", loc, None, src_of(calls[0], 60) if calls else None)
+
+
 def a_repr_rule(run, model, rule="C20.a-repr"):
     """Every user value interpolated into a part goes through <a_repr>.repr, a_repr being the contract's own."""
     root = model.func("_represent.repr_values")
@@ -427,7 +502,14 @@ def text_and_assembly(run, model, rule_text="C07.text", rule_asm="C07.assembly")
                                     if v_ is None:
                                         break
                                     a_ = a_[2][1] if v_ else a_[2][2]
-                                apps.append(strip_sites(a_))
+                                # ``sep + value`` appended in one go is the two parts one after the other
+                                todo_ = [strip_sites(a_)]
+                                while todo_:
+                                    x_ = todo_.pop(0)
+                                    if x_[0] == "op" and x_[1] == "Add" and len(x_[2]) == 2:
+                                        todo_ = [x_[2][0], x_[2][1]] + todo_
+                                    else:
+                                        apps.append(x_)
                         kinds = []
                         for a in apps:
                             s = show(a)
@@ -607,6 +689,9 @@ def decorator_regex(run, model, rule="C07.layout-regex"):
                 for cond in sub.ifs:
                     if names_in(cond):
                         tests.append((cond, names_in(cond)))
+            # a predicate helper: ``def _ends_decorator(line): return bool(A.match(line) or B.match(line))``
+            if isinstance(sub, ast.Return) and g is not fi and sub.value is not None and names_in(sub.value):
+                tests.append((sub.value, names_in(sub.value)))
     if not tests:
         raise AnalysisError("_represent.inspect_decorator: no test matching source lines against a module-level pattern was found")
     deco = ["@a", "    @name  # comment", "@a.b.setter", "  @_x(", "\t@icontract.require(", "@registry['x']", "@Z"]
